@@ -46,6 +46,11 @@ def cases(chk):
         {"variant": "XX", "edge": False, "passive": False, "cuts": ["closed-in-read"], "corrupt": False, "immediate": 0, "down": 2, "up": 1, "chunk": 0, "seed": 8},
         {"variant": "IK", "edge": False, "passive": True, "cuts": ["closed-in-read", "closed-in-read"], "corrupt": False, "immediate": 1, "down": 1, "up": 1, "chunk": 3, "seed": 9},
     ]
+    corpus += [
+        {"variant": "IK", "edge": False, "passive": False, "cuts": ["bad-answer"], "corrupt": False, "immediate": 0, "down": 1, "up": 1, "chunk": 0, "seed": 10 + i} for i in range(12)
+    ] + [
+        {"variant": "XX", "edge": False, "passive": True, "cuts": ["bad-answer", "bad-answer"], "corrupt": False, "immediate": 0, "down": 1, "up": 0, "chunk": 4, "seed": 30 + i} for i in range(6)
+    ]
     for c in corpus:
         yield "login", c
     # frames written together with the server's reply of a resumed login: the race between the end of the handshake and the network thread
@@ -55,7 +60,7 @@ def cases(chk):
     for _ in range(chk.scale(60, 1500)):
         v = r.choice(VARIANTS)
         yield "login", {"variant": v, "edge": r.random() < 0.3, "passive": r.random() < 0.4,
-                        "cuts": [r.choice(["before-answer", "mid-answer", "after-handshake", "closed-in-read"]) for _i in range(r.choice([0, 0, 1, 1, 2]))],
+                        "cuts": [r.choice(["before-answer", "mid-answer", "after-handshake", "closed-in-read", "bad-answer"]) for _i in range(r.choice([0, 0, 1, 1, 2]))],
                         "corrupt": r.random() < 0.15, "immediate": r.choice([0, 0, 1, 2, 4]) if v == "IK" else 0,
                         "down": r.randint(0, 5), "up": r.randint(0, 5), "chunk": r.choice([0, 1, 2, 3, 7, 16, 64]), "seed": r.randrange(1 << 30)}
 
@@ -159,7 +164,7 @@ def run_case(chk, stream, case):
     c = coop.Coop()
     w.conn_no = lambda: st["conn"]
     ctx = "case %s" % dict((k, v) for k, v in case.items())
-    st = {"conn": 0, "server": None, "segs": {}, "done": False, "problem": None, "sent_frames": [], "hello_sent": False, "app_go": False, "app_done": False}
+    st = {"conn": 0, "server": None, "segs": {}, "done": False, "problem": None, "sent_frames": [], "hello_sent": False, "app_go": False, "app_done": False, "corrupt_conns": set(), "mark": (0, 0)}
     chk.hit("variant:" + case["variant"], "cuts:%d" % len(case["cuts"]), "corrupt:%s" % case["corrupt"])
 
     def chunks(data):
@@ -208,11 +213,19 @@ def run_case(chk, stream, case):
     def network():
         try:
             for cut in case["cuts"]:
-                connect(False)
+                connect(cut == "bad-answer")
+                if cut == "bad-answer":
+                    st["corrupt_conns"].add(st["conn"])
                 if not wait(lambda: (pump(), st["server"].stage != "prologue" and st["server"].stage != "hello")[1] or st["server"].stage == "transport", "the client hello"):
                     return
                 reply = st["server"].take_output()
-                if cut == "mid-answer":
+                if cut == "bad-answer":
+                    # the server's reply does not authenticate; the connection is lost while the handshake thread of this attempt may or
+                    # may not have looked at it yet (the schedule decides) and the client logs in again
+                    deliver(reply)
+                    for _i in range(r.choice([0, 0, 1, 3, 10])):
+                        coop.point()
+                elif cut == "mid-answer":
                     w.bottom.receive(reply[:max(1, len(reply) // 2)])
                 elif cut in ("after-handshake", "closed-in-read"):
                     deliver(reply)
@@ -236,6 +249,9 @@ def run_case(chk, stream, case):
                     continue
                 disconnect()
             connect(case["corrupt"])
+            st["mark"] = (len(w.top_nodes), len(w.top_events))
+            if case["corrupt"]:
+                st["corrupt_conns"].add(st["conn"])
             if not wait(lambda: (pump(), st["server"].stage not in ("prologue", "hello"))[1], "the client hello"):
                 return
             srv = st["server"]
@@ -303,6 +319,11 @@ def run_case(chk, stream, case):
     if srv.errors:
         fails.append(oracle("C04:server-cannot-read-client", "%s: %s" % (ctx, srv.errors)))
         return fails
+    late_nodes = [getattr(n, "tag", None) for n in w.top_nodes[st["mark"][0]:]]
+    late_events = w.top_events[st["mark"][1]:]
+    if "failure" in late_nodes or "handshake_failed" in late_events:
+        fails.append(oracle("C04:spurious-login-failure", "%s: a login failure was reported during the last attempt, whose server reply authenticates (upward after the last connect: %s, events %s)"
+                            % (ctx, late_nodes, late_events)))
     expected_variant = "IK" if ("after-handshake" in case["cuts"] or "closed-in-read" in case["cuts"]) else case["variant"]     # a completed handshake taught the client the server's key
     if srv.variant != expected_variant:
         fails.append(oracle("C04:wrong-handshake-variant", "%s: the server saw a %s handshake" % (ctx, srv.variant)))
@@ -376,9 +397,12 @@ def replay_on_model(chk, c, w, st, ctx):
             serial[0] += 1
             k = "frame" if seen_hello.get(conn[0]) else "hello"
             seen_hello[conn[0]] = True
-            good = 0 if (k == "hello" and w.case["corrupt"] and conn[0] == st["conn"]) else 1
+            good = 0 if (k == "hello" and conn[0] in st["corrupt_conns"]) else 1
             line = "arrive %d %s %d %d" % (conn[0], k, good, serial[0])
         elif kind == "get" and idx >= 2:
+            line = "worker %d" % (idx - 2)
+        elif kind == "deliver" and idx >= 2 and getattr(tag[1], "tag", None) == "failure":
+            # the handshake thread reports the failed authentication: its `finishing` step happens now
             line = "worker %d" % (idx - 2)
         else:
             continue
@@ -406,6 +430,12 @@ def replay_on_model(chk, c, w, st, ctx):
     real_state = w.noise._wa_noiseprotocol.state
     mframes = [u for u in mup if u.startswith("f%d." % st["conn"])]
     rframes = [n for n in w.top_nodes if hasattr(n, "getAttributeValue") and n.tag != "failure" and not str(n["id"]).startswith("dc")]
-    if mstate != real_state or len(mframes) != len(rframes) or (("failure%d" % st["conn"]) in mup) != any(getattr(n, "tag", None) == "failure" for n in w.top_nodes):
-        fails.append(corr("outcome", "%s: impl state=%s frames=%d failure=%s   model %s" % (ctx, real_state, len(rframes), any(getattr(n, "tag", None) == "failure" for n in w.top_nodes), out)))
+    # failures reported upward, by attempt: the real stack's reports before / after the last connect against the model's failure<conn> entries
+    rfail_late = sum(1 for n in w.top_nodes[st["mark"][0]:] if getattr(n, "tag", None) == "failure")
+    rfail_early = sum(1 for n in w.top_nodes[:st["mark"][0]] if getattr(n, "tag", None) == "failure")
+    mfail_late = sum(1 for u in mup if u == "failure%d" % st["conn"])
+    mfail_early = sum(1 for u in mup if u.startswith("failure") and u != "failure%d" % st["conn"])
+    if mstate != real_state or len(mframes) != len(rframes) or (rfail_late, rfail_early) != (mfail_late, mfail_early):
+        fails.append(corr("outcome", "%s: impl state=%s frames=%d failures reported (earlier attempts, last attempt)=(%d, %d)   model %s"
+                          % (ctx, real_state, len(rframes), rfail_early, rfail_late, out)))
     return fails
